@@ -388,6 +388,15 @@ bool ManifestParser::ParseEdge(string* err) {
     // build graph but that has since been fixed.  Filter them out to
     // support users of those old CMake versions.
     Node* out = edge->outputs_[0];
+    // An input that is dropped must also stop being counted as an order-only
+    // input (implicit inputs cannot occur here), or the remaining inputs
+    // would change their kind.
+    const size_t order_only_begin =
+        edge->inputs_.size() - edge->order_only_deps_;
+    for (size_t i = order_only_begin; i < edge->inputs_.size(); ++i) {
+      if (edge->inputs_[i] == out)
+        --edge->order_only_deps_;
+    }
     vector<Node*>::iterator new_end =
         remove(edge->inputs_.begin(), edge->inputs_.end(), out);
     if (new_end != edge->inputs_.end()) {
